@@ -9,6 +9,8 @@ cp $src/README.md $out/AUTHOR-README.md 2>/dev/null
 pkg=./$dest/
 [ "$dest" = "." ] && pkg=.
 echo "### $prop m$k confirm" | tee $out/run.log
-/verif/lib/seed_confirm.sh $src $dest/demo_test.go $pkg 2>&1 | tee -a $out/run.log
+# only the demonstration's own tests (a demo that imports scheme packages changes what the package's other tests see)
+names=$(grep -o '^func Test[A-Za-z0-9_]*' $src/demo_test.go | sed 's/func //' | paste -sd'|')
+/verif/lib/seed_confirm.sh $src $dest/demo_test.go -run "^($names)\$" $pkg 2>&1 | tee -a $out/run.log
 echo "### checks: $@" | tee -a $out/run.log
 /verif/lib/seed_run.sh $src/patch.diff "$@" 2>&1 | tee -a $out/run.log
